@@ -57,7 +57,7 @@ func (dw *defaultWalkerPipeline) worker(ctx context.Context, wg *sync.WaitGroup,
 			verifPoint("sink.recv.post", vid, verifName(root))
 			if err := dw.walkNode(root, callback); err != nil {
 				verifPoint("sink.errsend.pre", vid, verifName(root))
-				errc <- err
+				sendErr(ctx, errc, err)
 				verifPoint("sink.errsend.post", vid, verifName(root))
 			}
 			verifPoint("sink.done", vid, verifName(root))
